@@ -49,6 +49,7 @@ type Contract struct {
 	Pure     bool
 	Trusted  bool // contract assumed, body not verified
 	Loops    map[int]*LoopSpec
+	ExecLoops map[int]*LoopSpec // loops inside the exec literals of a generator unit, numbered per literal
 	Replay   []string
 	Opts     map[string]string
 	ExecParams, ExecResults []string // names for the literals a generator assigns to n.exec
@@ -201,7 +202,21 @@ func parseClause(s string, file string, line int) (Clause, error) {
 	c := Clause{}
 	// optional "[Cnn]" property attribution
 	if strings.HasPrefix(s, "[") {
-		if j := strings.Index(s, "]"); j > 0 {
+		// the closing bracket that matches (path labels are source text and may contain brackets)
+		depth, j := 0, -1
+		for i, ch := range s {
+			if ch == '[' {
+				depth++
+			}
+			if ch == ']' {
+				depth--
+				if depth == 0 {
+					j = i
+					break
+				}
+			}
+		}
+		if j > 0 {
 			c.Prop = s[1:j]
 			s = strings.TrimSpace(s[j+1:])
 		}
@@ -472,8 +487,8 @@ func (db *ContractDB) loadFile(fn string) error {
 				return err
 			}
 			cur.Panics = append(cur.Panics, cl)
-		case "loop":
-			// loop <ordinal> [index <name>]
+		case "loop", "exec-loop":
+			// loop <ordinal> [index <name>]; exec-loop: the k-th loop inside each exec literal of a generator unit
 			f := strings.Fields(rest)
 			if len(f) == 0 {
 				return fmt.Errorf("%s:%d: loop needs an ordinal", fn, ln+1)
@@ -488,7 +503,14 @@ func (db *ContractDB) loadFile(fn string) error {
 					curLoop.Index = f[i+1]
 				}
 			}
-			cur.Loops[n] = curLoop
+			if word == "exec-loop" {
+				if cur.ExecLoops == nil {
+					cur.ExecLoops = map[int]*LoopSpec{}
+				}
+				cur.ExecLoops[n] = curLoop
+			} else {
+				cur.Loops[n] = curLoop
+			}
 		default:
 			return fmt.Errorf("%s:%d: unknown contract keyword %q", fn, ln+1, word)
 		}
